@@ -35,6 +35,7 @@ type Program struct {
 	infos     map[string]*types.Info      // package path -> type info (repo packages)
 	localsLock map[string][]localDecl      // function key -> declared locals when the lock was written
 	aliasCache map[*ssa.Function]map[string][]string
+	relNames   map[string]bool
 	entryCache map[*ssa.Function]bool
 }
 
@@ -562,4 +563,35 @@ func (p *Program) isEntryPoint(fn *ssa.Function) bool {
 		}
 	}
 	return p.entryCache[fn]
+}
+
+// hasFuncRel reports whether a function with this relative name exists (guards
+// against misspelled names in fnIs, which would otherwise be vacuously false).
+func (p *Program) hasFuncRel(rel string) bool {
+	if p.relNames == nil {
+		p.relNames = map[string]bool{}
+		for _, f := range p.funcByKey {
+			p.relNames[p.relName(f)] = true
+		}
+		for f := range p.keyOfFunc {
+			p.relNames[p.relName(f)] = true
+		}
+	}
+	if p.relNames[rel] {
+		return true
+	}
+	if strings.HasSuffix(rel, "$bound") {
+		return p.relNames[strings.TrimSuffix(rel, "$bound")]
+	}
+	return false
+}
+
+func (p *Program) allFuncsByRel(rel string) []*ssa.Function {
+	var out []*ssa.Function
+	for f := range p.keyOfFunc {
+		if p.relName(f) == rel {
+			out = append(out, f)
+		}
+	}
+	return out
 }
